@@ -451,6 +451,84 @@ func run(r *mon.Run) {
 			}
 		}
 	}
+	// several representations of one URL (a b1 variant pair; the same in a b2 bundle): the signer may refuse them - the
+	// signed subset has one entry per URL - but IF it processes the bundle, every covered exchange verifies afterwards and
+	// yields its own body
+	if r.Shard == 0 {
+		dg := r.Rand("same-url", 0)
+		ck := gen.ECKey(dg, gen.Curves[0])
+		leaf := gen.Cert(ck, gen.CertOpts{CN: "d.example", DNS: []string{"d.example"}, Serial: 4713})
+		ch, _ := certurl.NewCertChain([]*x509.Certificate{leaf}, []byte("ocsp"), nil)
+		vu, _ := url.Parse("https://d.example/validity")
+		date := time.Unix(1600000000, 0)
+		for _, ver := range []version.Version{version.VersionB1, version.VersionB2} {
+			for pos := 0; pos < 3; pos++ {
+				b := &bundle.Bundle{Version: ver}
+				var bodies [][]byte
+				u, _ := url.Parse("https://d.example/page")
+				other, _ := url.Parse("https://d.example/other")
+				add := func(u *url.URL, h http.Header) {
+					body := dg.Bytes(30 + len(bodies))
+					bodies = append(bodies, append([]byte{}, body...))
+					b.Exchanges = append(b.Exchanges, &bundle.Exchange{Request: bundle.Request{URL: u, Header: http.Header{}}, Response: bundle.Response{Status: 200, Header: h, Body: body}})
+				}
+				for k := 0; k < 3; k++ {
+					if k == pos {
+						add(other, http.Header{"Content-Type": {"text/plain"}})
+					}
+					if k < 2 {
+						add(u, http.Header{"Content-Type": {"text/plain"}, "Variants": {"Accept-Language;en;fr"}, "Variant-Key": {[]string{"en", "fr"}[k]}})
+					}
+				}
+				if ver == version.VersionB1 {
+					b.PrimaryURL = u
+				}
+				key := fmt.Sprintf("bs:same-url:%s:%d", ver, pos)
+				outcome, problem := "processed-and-verifies", ""
+				p, pv := r.Call(key, nil, func() {
+					sg, err := signature.NewSigner(ver, ch, ck, vu, date, time.Hour)
+					if err != nil {
+						outcome = "signer-refused"
+						return
+					}
+					for _, e := range b.Exchanges {
+						integ, err := e.AddPayloadIntegrity(ver, 16)
+						if err == nil {
+							err = sg.AddExchange(e, integ)
+						}
+						if err != nil {
+							outcome = "signer-refused"
+							return
+						}
+					}
+					if b.Signatures, err = sg.UpdateSignatures(nil); err != nil {
+						outcome = "signer-refused"
+						return
+					}
+					v, err := signature.NewVerifier(b.Signatures, date.Add(time.Minute), ver)
+					if err != nil {
+						problem = "NewVerifier: " + err.Error()
+						return
+					}
+					for k, e := range b.Exchanges {
+						res, err := v.VerifyExchange(e)
+						if err != nil || res == nil || !bytes.Equal(res.VerifiedPayload, bodies[k]) {
+							problem = fmt.Sprintf("covered exchange #%d (%s) does not verify with its original body after the signer processed the bundle without complaint: %v", k, e.Request.URL, err)
+						}
+					}
+				})
+				if p {
+					problem = fmt.Sprintf("panic: %v", pv)
+				}
+				if problem != "" {
+					outcome = "PROCESSED-BUT-DOES-NOT-VERIFY"
+					r.Violation(key, fmt.Sprintf("%s bundle with two representations of one URL: %s", ver, problem), nil)
+				}
+				r.Eval("same-url:" + outcome)
+				r.Distinct(fmt.Sprintf("same-url|%s|%d|%s", ver, pos, outcome))
+			}
+		}
+	}
 	// which hosts a certificate covers (the harness follows CanSignForURL when it signs, as sign-bundle does; this is
 	// the independent statement of what that answer has to be for exact and wildcard names)
 	if r.Shard == 0 {
